@@ -845,7 +845,7 @@ def lib_diff(ltext, rtext):
                         ignore_eyaml_values=True)
         differ.compare_to(rdata)
         entries = [e for e in differ.get_report() if e.action is not DiffActions.SAME]
-        return ("ok", [str(e) for e in entries], [str(e.action) for e in entries], gen.plain(ldata), gen.plain(rdata))
+        return ("ok", [str(e) for e in entries], [getattr(e.action, "name", str(e.action)) for e in entries], gen.plain(ldata), gen.plain(rdata))
     except RecursionError:
         return ("liberr", "RecursionError")
     except Exception as ex:
@@ -895,12 +895,14 @@ def check_diff(ctx, case):
         if _nonempty_lines(base["out"]) != want_lines:
             col.witness("C16/yaml-diff/printed-report-differs-from-differ-entries", "stdout is not the Differ's entries",
                         case, observed=base["out"][:300], expected=want_lines[:20])
-        # the statement: exit 0 <=> data-equal
-        if equal and base["code"] != 0:
+        # the statement: exit 0 <=> data-equal.  Only when the delivery above is faithful -- otherwise the
+        # delivery witness already names the root cause.
+        faithful = (base["code"] != 0) == bool(ref_lines)
+        if faithful and equal and base["code"] != 0:
             col.witness("C16/yaml-diff/data-equal-but-exit-nonzero/differ-reports-%s" % "+".join(sorted(set(actions)) or ["nothing"]),
                         "two data-equal documents, exit != 0 (inherited from the Differ's report)", case,
                         observed={"exit": base["code"], "out": base["out"][:200]}, expected="exit 0")
-        if not equal and base["code"] == 0:
+        if faithful and not equal and base["code"] == 0:
             col.witness("C16/yaml-diff/data-differ-but-exit-zero/%s" % diff_class(lplain, rplain),
                         "two different documents, exit 0 and no report (inherited from the Differ's report)", case,
                         observed={"exit": 0, "out": base["out"][:200]}, expected="exit 1 and entries")
@@ -1064,27 +1066,34 @@ def check_paths(ctx, case):
     col.case(("paths", case["shape"], expr[:2], tuple(opts), ref[0], base["code"], min(len(ref[1]) if ref[0] == "ok" else 0, 3)),
              sample={"tool": "paths", "doc": text, "argv": opts + ["-s", expr], "stdout": base["out"][:80]}
              if ref[0] == "ok" and len(ref[1]) > 1 else None)
-    for name, r, label in runs:
-        if r["code"] == "EXC":
-            _uncaught(ctx, "paths", case, r, "library: " + ref[0])
-            continue
-        if ref[0] == "unloadable":
-            if r["code"] == 0:
-                col.witness("C16/yaml-paths/zero-exit-on-unloadable-input", "input does not load, exit 0", case,
-                            observed={"delivery": name}, expected="exit != 0")
-            continue
+    def result_lines(r, label):
         lines = r["out"].split("\n")
         if lines and lines[-1] == "":
             lines.pop()
         if "-F" not in opts:
             prefix = "%s/0: " % label           # from-code decorator: <file>/<document index>:
             lines = [ln[len(prefix):] if ln.startswith(prefix) else ln for ln in lines]
-        if r["code"] != 0:
-            col.witness("C16/yaml-paths/%s-nonzero-exit-on-valid-search" % name, "valid document and expression, exit != 0", case,
-                        observed={"exit": r["code"], "err": r["err"][:200]}, expected=0)
-        elif lines != ref[1]:
-            col.witness("C16/yaml-paths/%s-printed-paths-differ-from-search-results" % name,
-                        "stdout is not exactly the search results", case, observed=lines[:20], expected=ref[1][:20])
+        return lines
+
+    name, r, label = runs[0]
+    base_lines = result_lines(r, label)
+    if r["code"] == "EXC":
+        _uncaught(ctx, "paths", case, r, "library: " + ref[0])
+    elif ref[0] == "unloadable":
+        if r["code"] == 0:
+            col.witness("C16/yaml-paths/zero-exit-on-unloadable-input", "input does not load, exit 0", case,
+                        observed={"delivery": name}, expected="exit != 0")
+    elif r["code"] != 0:
+        col.witness("C16/yaml-paths/nonzero-exit-on-valid-search", "valid document and expression, exit != 0", case,
+                    observed={"exit": r["code"], "err": r["err"][:200]}, expected=0)
+    elif base_lines != ref[1]:
+        col.witness("C16/yaml-paths/printed-paths-differ-from-search-results",
+                    "stdout is not exactly the search results", case, observed=base_lines[:20], expected=ref[1][:20])
+    for name, r2, label in runs[1:]:
+        if (r2["code"], result_lines(r2, label)) != (r["code"], base_lines):
+            col.witness("C16/yaml-paths/%s-differs-from-file" % name, "stdin delivery changes the outcome", case,
+                        observed={"exit": r2["code"], "lines": result_lines(r2, label)[:20], "exc": r2["exc"]},
+                        expected={"exit": r["code"], "lines": base_lines[:20]})
     ctx.clean()
 
 
